@@ -18,4 +18,191 @@ spec fn is_exact_range(ts: Seq<Transition>, out: Seq<Transition>, lo: int, hi: i
     && (forall|i: int| 0 <= i < ts.len() ==> (lo <= i <= hi <==> in_group(#[trigger] ts[i], gmin, gmax)))
 }
 
+/// some transition leads into s
+spec fn has_in(ts: Seq<Transition>, s: u32) -> bool {
+    exists|i: int| 0 <= i < ts.len() && (#[trigger] ts[i]).to == s
+}
+spec fn has_in_upto(ts: Seq<Transition>, n: int, s: u32) -> bool {
+    exists|i: int| 0 <= i < n && i < ts.len() && (#[trigger] ts[i]).to == s
+}
+/// some transition leaves s
+spec fn has_out(ts: Seq<Transition>, s: u32) -> bool {
+    exists|i: int| 0 <= i < ts.len() && (#[trigger] ts[i]).from == s
+}
+spec fn has_out_upto(ts: Seq<Transition>, n: int, s: u32) -> bool {
+    exists|i: int| 0 <= i < n && i < ts.len() && (#[trigger] ts[i]).from == s
+}
+
+/// keep_only_states_with_input_transitions keeps a transition iff it leaves the start state or
+/// joins two states that something leads into
+spec fn keep_in(ts: Seq<Transition>, start: u32, t: Transition) -> bool {
+    t.from == start || (has_in(ts, t.from) && has_in(ts, t.to))
+}
+spec fn kept_in_upto(ts: Seq<Transition>, start: u32, n: int) -> Seq<Transition>
+    decreases n
+{
+    if n <= 0 || n > ts.len() { Seq::empty() } else {
+        let p = kept_in_upto(ts, start, n - 1);
+        if keep_in(ts, start, ts[n - 1]) { p.push(ts[n - 1]) } else { p }
+    }
+}
+
+/// eliminate_nonaccepting_states_without_output_transitions keeps a transition iff its target
+/// accepts or has a way out
+spec fn keep_out(ts: Seq<Transition>, acc: ISet<u32>, t: Transition) -> bool {
+    acc.contains(t.to) || has_out(ts, t.to)
+}
+spec fn kept_out_upto(ts: Seq<Transition>, acc: ISet<u32>, n: int) -> Seq<Transition>
+    decreases n
+{
+    if n <= 0 || n > ts.len() { Seq::empty() } else {
+        let p = kept_out_upto(ts, acc, n - 1);
+        if keep_out(ts, acc, ts[n - 1]) { p.push(ts[n - 1]) } else { p }
+    }
+}
+
+/// s occurs in the automaton: the start state or an end of some transition
+spec fn state_upto(ts: Seq<Transition>, start: u32, n: int, s: u32) -> bool {
+    s == start || has_in_upto(ts, n, s) || has_out_upto(ts, n, s)
+}
+spec fn state_of(ts: Seq<Transition>, start: u32, s: u32) -> bool {
+    s == start || has_in(ts, s) || has_out(ts, s)
+}
+
+/// some key has number v
+spec fn hit(f: Map<u32, u32>, v: u32) -> bool {
+    exists|k: u32| f.contains_key(k) && #[trigger] f[k] == v
+}
+
+/// f numbers its keys 0 .. c-1 without gaps or repetitions
+spec fn numbering(f: Map<u32, u32>, c: int) -> bool {
+    (forall|k: u32| f.contains_key(k) ==> 0 <= #[trigger] f[k] < c)
+    && (forall|k1: u32, k2: u32| f.contains_key(k1) && f.contains_key(k2) && #[trigger] f[k1] == #[trigger] f[k2] ==> k1 == k2)
+    && (forall|v: u32| 0 <= v < c ==> #[trigger] hit(f, v))
+}
+
+/// renumber_states: the automaton is copied through a gap-free renumbering f of its states, the
+/// start state becoming 0
+spec fn renumbering_ok(f: Map<u32, u32>, c: int, start: u32, ts: Seq<Transition>, acc: ISet<u32>, r0: u32, r1: Seq<Transition>, r2: ISet<u32>) -> bool {
+    numbering(f, c)
+    && (forall|s: u32| f.contains_key(s) <==> state_of(ts, start, s))
+    && f[start] == 0 && r0 == 0
+    && r1.len() == ts.len()
+    && (forall|i: int| 0 <= i < ts.len() ==> #[trigger] r1[i] == (Transition { from: f[ts[i].from], to: f[ts[i].to], input: ts[i].input }))
+    && (forall|v: u32| r2.contains(v) <==> acc_image(f, acc, v))
+}
+
+/// v is the number of one of the first n elements of vec
+spec fn img_upto(f: Map<u32, u32>, vec: Seq<u32>, n: int, v: u32) -> bool {
+    exists|q: int| 0 <= q < n && q < vec.len() && #[trigger] f[vec[q]] == v
+}
+/// v is the number of an accepting state
+spec fn acc_image(f: Map<u32, u32>, acc: ISet<u32>, v: u32) -> bool {
+    exists|s: u32| acc.contains(s) && f.contains_key(s) && #[trigger] f[s] == v
+}
+
+proof fn lemma_img_step(f: Map<u32, u32>, vec: Seq<u32>, n: int, v: u32)
+    requires 0 <= n < vec.len()
+    ensures img_upto(f, vec, n + 1, v) == (img_upto(f, vec, n, v) || f[vec[n]] == v)
+{
+    if img_upto(f, vec, n + 1, v) {
+        let q = choose|q: int| 0 <= q < n + 1 && q < vec.len() && #[trigger] f[vec[q]] == v;
+        if q < n { assert(img_upto(f, vec, n, v)); }
+    }
+    if img_upto(f, vec, n, v) {
+        let q = choose|q: int| 0 <= q < n && q < vec.len() && #[trigger] f[vec[q]] == v;
+        assert(img_upto(f, vec, n + 1, v));
+    }
+    if f[vec[n]] == v { assert(img_upto(f, vec, n + 1, v)); }
+}
+
+proof fn lemma_img_all(f: Map<u32, u32>, vec: Seq<u32>, acc: ISet<u32>)
+    requires
+        forall|x: u32| vec.contains(x) <==> acc.contains(x),
+        forall|s: u32| acc.contains(s) ==> f.contains_key(s),
+    ensures forall|v: u32| img_upto(f, vec, vec.len() as int, v) <==> acc_image(f, acc, v)
+{
+    assert forall|v: u32| img_upto(f, vec, vec.len() as int, v) <==> acc_image(f, acc, v) by {
+        if img_upto(f, vec, vec.len() as int, v) {
+            let q = choose|q: int| 0 <= q < vec.len() && q < vec.len() && #[trigger] f[vec[q]] == v;
+            assert(vec.contains(vec[q]));
+            assert(acc.contains(vec[q]) && f.contains_key(vec[q]) && f[vec[q]] == v);
+        }
+        if acc_image(f, acc, v) {
+            let s = choose|s: u32| acc.contains(s) && f.contains_key(s) && #[trigger] f[s] == v;
+            assert(vec.contains(s));
+            let q = choose|q: int| 0 <= q < vec.len() && vec[q] == s;
+            assert(f[vec[q]] == v);
+        }
+    }
+}
+
+proof fn lemma_numbering_insert(f: Map<u32, u32>, c: int, k: u32)
+    requires numbering(f, c), !f.contains_key(k), 0 <= c < u32::MAX
+    ensures numbering(f.insert(k, c as u32), c + 1)
+{
+    let g = f.insert(k, c as u32);
+    assert forall|v: u32| 0 <= v < c + 1 implies #[trigger] hit(g, v) by {
+        if v < c {
+            assert(hit(f, v));
+            let k2 = choose|k2: u32| f.contains_key(k2) && #[trigger] f[k2] == v;
+            assert(g.contains_key(k2) && g[k2] == v);
+        } else {
+            assert(g.contains_key(k) && g[k] == v);
+        }
+    }
+    assert forall|k1: u32, k2: u32| g.contains_key(k1) && g.contains_key(k2) && #[trigger] g[k1] == #[trigger] g[k2] implies k1 == k2 by {
+        if k1 != k && k2 != k { assert(f[k1] == f[k2]); }
+    }
+}
+
+spec fn seen32(s: Seq<u32>, n: int, x: u32) -> bool {
+    exists|q: int| 0 <= q < n && q < s.len() && #[trigger] s[q] == x
+}
+
+proof fn lemma_has_in_step(ts: Seq<Transition>, n: int, s: u32)
+    requires 0 <= n < ts.len()
+    ensures has_in_upto(ts, n + 1, s) == (has_in_upto(ts, n, s) || ts[n].to == s)
+{
+    if has_in_upto(ts, n + 1, s) {
+        let i = choose|i: int| 0 <= i < n + 1 && i < ts.len() && (#[trigger] ts[i]).to == s;
+        if i < n { assert(has_in_upto(ts, n, s)); }
+    }
+    if has_in_upto(ts, n, s) {
+        let i = choose|i: int| 0 <= i < n && i < ts.len() && (#[trigger] ts[i]).to == s;
+        assert(has_in_upto(ts, n + 1, s));
+    }
+    if ts[n].to == s { assert(has_in_upto(ts, n + 1, s)); }
+}
+
+proof fn lemma_has_out_step(ts: Seq<Transition>, n: int, s: u32)
+    requires 0 <= n < ts.len()
+    ensures has_out_upto(ts, n + 1, s) == (has_out_upto(ts, n, s) || ts[n].from == s)
+{
+    if has_out_upto(ts, n + 1, s) {
+        let i = choose|i: int| 0 <= i < n + 1 && i < ts.len() && (#[trigger] ts[i]).from == s;
+        if i < n { assert(has_out_upto(ts, n, s)); }
+    }
+    if has_out_upto(ts, n, s) {
+        let i = choose|i: int| 0 <= i < n && i < ts.len() && (#[trigger] ts[i]).from == s;
+        assert(has_out_upto(ts, n + 1, s));
+    }
+    if ts[n].from == s { assert(has_out_upto(ts, n + 1, s)); }
+}
+
+proof fn lemma_seen32_step(s: Seq<u32>, n: int, x: u32)
+    requires 0 <= n < s.len()
+    ensures seen32(s, n + 1, x) == (seen32(s, n, x) || s[n] == x)
+{
+    if seen32(s, n + 1, x) {
+        let q = choose|q: int| 0 <= q < n + 1 && q < s.len() && #[trigger] s[q] == x;
+        if q < n { assert(seen32(s, n, x)); }
+    }
+    if seen32(s, n, x) {
+        let q = choose|q: int| 0 <= q < n && q < s.len() && #[trigger] s[q] == x;
+        assert(seen32(s, n + 1, x));
+    }
+    if s[n] == x { assert(seen32(s, n + 1, x)); }
+}
+
 } // verus!
